@@ -2,4 +2,4 @@
 # Rebuild the repository's own test suite (guard OFF) and run it: the baseline_off_cmd of MANIFEST.hooks.
 set -e
 cmake --build /repo/_build -j16 >/tmp/verif_suite_build.log 2>&1 || { tail -40 /tmp/verif_suite_build.log; exit 1; }
-ctest --test-dir /repo/_build -j8 --timeout 900 2>&1 | tail -15
+ctest --test-dir /repo/_build -j8 --timeout 900 2>&1 | grep -E "tests passed|tests failed|\*\*\*Failed|Not Run" 
